@@ -69,9 +69,10 @@ func genRoundTrip(t *rapid.T) RTCase {
 }
 
 // genRoundTripMPCLC additionally draws the "long name" class: the first
-// string of the file does not fit into the first 4 KiB.  The name consists of
-// NUL bytes on purpose (see the report: with F10 open the parser reads the
-// bytes following the cut as a length and allocates that much).
+// string of the file does not fit into the first 4 KiB buffer fill.  The name
+// consists of NUL bytes on purpose: with finding F10 open the parser reads the
+// four bytes following the cut as the next length field and allocates that
+// much (an ASCII name makes it allocate 1-2 GB twice); NULs read as length 0.
 func genRoundTripMPCLC(t *rapid.T) RTCase {
 	cs := genRoundTrip(t)
 	if rapid.IntRange(0, 19).Draw(t, "long_name") == 0 {
@@ -246,10 +247,10 @@ func runRoundTripMPCLC(cs RTCase) ev.Outcome {
 			"Marshal output is not laid out as the format says: header complete=%v, %d gate records (want %d), %d trailing bytes",
 			lay.HeaderOK, len(lay.Gates), len(b.Circ.Gates), len(data)-lay.Rest)
 	}
-	// Input class of F10: some string is not inside the first 4 KiB.
+	// Input class of F10 (see mLayout.AcrossBuffer).
 	sig := func(s string) string {
-		if lay.BeyondFirstBlock {
-			return sigBeyondBlock
+		if lay.AcrossBuffer {
+			return sigAcrossBuffer
 		}
 		return "mpclc/roundtrip/" + s
 	}
@@ -297,8 +298,8 @@ func runRoundTripMPCLC(cs RTCase) ev.Outcome {
 	}
 
 	classes := append(b.typeClasses(), circClasses(b.Circ)...)
-	if lay.BeyondFirstBlock {
-		classes = append(classes, "string-beyond-first-4KiB")
+	if lay.AcrossBuffer {
+		classes = append(classes, "string-across-4KiB-buffer")
 	}
 	if slow {
 		classes = append(classes, "slow-once")
